@@ -671,6 +671,78 @@ def rule_guarded_den(chk, prog):
 
 
 # ----------------------------------------------------------------------------
+# rule 5: the cutoff reaches the parameter it is meant for; it is a cutoff on the total density
+# ----------------------------------------------------------------------------
+def rule_arg_landing(chk, prog):
+    """Calls of the model evaluators whose class is fixed by an enclosing isinstance test: a positional
+    argument whose own name is the name of a parameter of the callee must be bound to that parameter
+    (`self.mlxc(X0TN, rho_tuple, self.rhocut)` binds self.rhocut to vrho_tuple: the cutoff stays 0)."""
+    classes = {}
+    for rel in (XE, XE2):
+        for cname, cls in prog.module(rel).classes.items():
+            classes[cname] = (prog.module(rel), cls)
+    n = 0
+    for rel in (NI, XE, XE2):
+        mod = prog.module(rel)
+        for fn in [x for x in ast.walk(mod.ast) if isinstance(x, (ast.FunctionDef, ast.AsyncFunctionDef))]:
+            for call in pf.walk_no_nested(fn):
+                if not isinstance(call, ast.Call) or not isinstance(call.func, (ast.Attribute, ast.Name)):
+                    continue
+                recv = pf.src(call.func)
+                cname = None
+                for t, pol, kind in cfgm.conditions_at(call):
+                    if pol and isinstance(t, ast.Call) and pf.call_name(t) == "isinstance" and len(t.args) == 2 \
+                            and pf.src(t.args[0]) == recv and isinstance(t.args[1], ast.Name) and t.args[1].id in classes:
+                        cname = t.args[1].id
+                if cname is None:
+                    continue
+                cmod, ccls = classes[cname]
+                r = prog.find_method(cmod, ccls, "__call__")
+                if r is None:
+                    continue
+                params = [a.arg for a in r[2].args.posonlyargs + r[2].args.args][1:]
+                n += 1
+                inst = "%s: %s(...) resolved to %s.__call__(%s)" % (pf.qualname(fn), recv, cname, ", ".join(params))
+                bad = None
+                for i, a in enumerate(call.args):
+                    tail = a.attr if isinstance(a, ast.Attribute) else (a.id if isinstance(a, ast.Name) else None)
+                    if tail in params and i < len(params) and params[i] != tail:
+                        bad = (a, tail, params[i])
+                    elif tail in params and i >= len(params):
+                        bad = (a, tail, "<no parameter>")
+                if bad:
+                    a, tail, got = bad
+                    chk.violation("arg-landing", rel, pf.qualname(fn), pf.src(call)[:110], call.lineno,
+                                  "`%s` is passed positionally and lands in the parameter `%s` of %s.__call__, not in "
+                                  "`%s`: the callee keeps its default %s (a low-density cutoff passed this way is "
+                                  "silently switched off)" % (pf.src(a), got, cname, tail, tail), instance=inst)
+                else:
+                    chk.ok("arg-landing", inst)
+    if n < 2:
+        raise core.AnalysisError("fewer than 2 model calls with a class fixed by isinstance were found")
+
+
+def rule_cutoff_total(chk):
+    """C07's `cutoff` rule (the density compared with the user's cutoff is nspin-equivalent to the TOTAL
+    density) is a necessary condition of "points below the model's cutoff contribute exactly zero": re-reported
+    here.  Same engine, same code; only that rule is run."""
+    import importlib
+    c07 = importlib.import_module("checks.c07")
+    sub = core.Check("C07", chk.tree, tier=chk.tier, seed=chk.seed)
+    sub.guard(c07.rule_rhocut, c07.Ctx(sub))
+    known = core.load_known("C07")
+    for e in sub.errors:
+        raise core.AnalysisError("C07's cutoff rule could not run: %s" % e.splitlines()[0][:200])
+    for rule, inst, ok, nt, detail in sub.obligations:
+        if ok:
+            chk.ok("via-C07:cutoff", inst, nontrivial=nt)
+    for f in sub.findings:
+        if f.key in known:
+            continue
+        chk.violation("via-C07:cutoff", f.file, f.func, f.construct, f.line, f.msg)
+
+
+# ----------------------------------------------------------------------------
 # rule 4: index clipping for the spline plans (C, clang AST)
 # ----------------------------------------------------------------------------
 def rule_index_clip(chk, tree):
@@ -742,6 +814,12 @@ def analyse(chk):
     chk.guard(lambda c_: er.check_stale_loop_vars(c_, prog, ((XE, "MappedDFTKernel"), (XE2, "MappedDFTKernel2"))))
     chk.floor("stale-loop-var", 4, "methods with loops in MappedDFTKernel{,2} and their bases")
     chk.guard(rule_guarded_den, prog)
+    chk.rule("arg-landing", "model calls: a positional argument named like a callee parameter lands in that parameter")
+    chk.guard(rule_arg_landing, prog)
+    chk.floor("arg-landing", 2, "the two model calls of eval_xc_cider")
+    chk.rule("via-C07:cutoff", "the density compared with the cutoff is the total density (C07's rule, re-reported)")
+    chk.guard(rule_cutoff_total)
+    chk.floor("via-C07:cutoff", 4, "cutoff comparisons in the exponent functions and the two mapped kernels")
     chk.rule("index-clip", "cider_ind_clip stores an index within [0, size) on every path (clang AST)")
     chk.guard(rule_index_clip, tree)
     chk.floor("index-clip", 1, "one index array element per iteration")
@@ -870,6 +948,11 @@ def mutants(tree):
         Mutant("v2 POL/NPOL: derivative additionally cut per spin channel where the value is kept", XE2,
                "                df[..., scond, :] = 0.0\n", "                df[cond | scond, :] = 0.0\n",
                expect="cutoff-pair"),
+        Mutant("numint: rhocut passed positionally to MappedXC2 (lands in vrho_tuple)", NI,
+               "                X0TN, rho_tuple, rhocut=self.rhocut\n", "                X0TN, rho_tuple, self.rhocut\n",
+               expect="arg-landing"),
+        Mutant("v1 non-SEP cutoff compares twice the total density", XE, "cond = X0T[:, 0].mean(0) < rhocut",
+               "cond = X0T[:, 0].sum(0) < rhocut", expect="via-C07"),
         Mutant("zero only res under rhocut", XE, "                res[..., cond] = 0.0\n                dres[..., cond] = 0.0\n",
                "                res[..., cond] = 0.0\n", expect="cutoff-pair"),
         Mutant("zero only f under rhocut (v2 SEP)", XE2, "                f[cond] = 0.0\n                df[cond] = 0.0\n", "                f[cond] = 0.0\n",
